@@ -279,11 +279,11 @@ def _t3(ctx: Context) -> None:
     rets = [n for n in cfg.nodes if n.kind == "return" and n.exprs]
     vs = pp.method_calls(ctx, cfg, T, "verify")
     ss = pp.method_calls(ctx, cfg, T, "sign")
-    if len(rets) != 1 or len(vs) != 1 or len(ss) != 1 or not isinstance(rets[0].exprs[0], ast.Dict):
+    rn, rdict = ctx.deref(cfg, rets[0], rets[0].exprs[0]) if len(rets) == 1 else (None, None)
+    if len(rets) != 1 or len(vs) != 1 or len(ss) != 1 or not isinstance(rdict, ast.Dict):
         ck.unknown("C03.T3", "part2: return dict / verify / sign not found", f.loc())
         return
-    rn = rets[0]
-    raw = {ctx.const(f, k, None): T.of(cfg, rn, v) for k, v in zip(rn.exprs[0].keys, rn.exprs[0].values) if k is not None}
+    raw = {ctx.const(f, k, None): T.of(cfg, rn, v) for k, v in zip(rdict.keys, rdict.values) if k is not None}
     rec = {k: _n(strip_sites(v)) for k, v in raw.items()}
     vrecv = _n(vs[0][2])
     subt = vrecv[2][0][1] if vrecv[0] == "call" and vrecv[2] and vrecv[2][0][0] == "sub" else None
